@@ -209,7 +209,8 @@ LinePy(r) ==
     [] OTHER -> FALSE
 
 \* a call that did not return ("hang") or stopped on an assertion ("abort") has no result at all
-Returned(r) == ~("hang" \in DOMAIN r) /\ ~("abort" \in DOMAIN r)
+\* ... and a call that changed a word beyond the documented length of an output ("overrun") has no admissible result
+Returned(r) == ~("hang" \in DOMAIN r) /\ ~("abort" \in DOMAIN r) /\ ~("overrun" \in DOMAIN r)
 LineOk(r) ==
   CASE ~Returned(r)   -> FALSE
     [] r.fam = "zz"   -> LineZZ(r)
